@@ -232,11 +232,11 @@ def mustBeAccepted (obs : Json) (objs : List (String × List (Nat × ClassO))) :
         if parentPublishes && !(accepted rp c.cur) then ["RpTreeValid"] else []
       | _, _ => []
 
-/-- Every CA holds the certificate its parent currently issues to it (the periodic child → parent
-syncs have caught up); the TA level is not looked at. -/
-def certsConsistent (obs : Json) : Bool :=
-  (jfields (jget obs "cas")).all fun (h, ca) =>
-    (jfields (jget ca "resources")).all fun (_, rc) =>
+/-- CAs that do not hold the certificate their parent currently issues to them (the periodic
+child → parent sync has not caught up), with their descendants; the TA level is not looked at. -/
+def laggingCas (obs : Json) : List String :=
+  let direct := (jfields (jget obs "cas")).filterMap fun (h, ca) =>
+    let ok := (jfields (jget ca "resources")).all fun (_, rc) =>
       let parent := jstr (jget rc "parent_handle")
       let pca := jpath obs ["cas", parent]
       if parent == "ta" || jisNull pca then true else
@@ -247,7 +247,6 @@ def certsConsistent (obs : Json) : Bool :=
         | "roll_pending" => (jarr p).drop 1
         | "roll_old" => (jarr p).take 1
         | _ => []
-      -- requests still open: not caught up
       ks.all fun k =>
         let kid := jstr (jget k "key_id")
         let serial := jtok (jpath k ["incoming_cert", "serial"])
@@ -257,6 +256,12 @@ def certsConsistent (obs : Json) : Bool :=
           | .null => false
           | c => jtok (jget c "serial") == serial &&
               jstr (jpath pca ["children", h, "state"]) == "active"
+    if ok then none else some h
+  -- descendants (three levels are enough for the generated hierarchies)
+  let kids (l : List String) : List String := l.flatMap fun h => jkeys (jpath obs ["cas", h, "children"])
+  let l1 := direct ++ kids direct
+  let l2 := l1 ++ kids l1
+  l2 ++ kids l2
 
 def rpPreds (obs : Json) (objs : List (String × List (Nat × ClassO))) (synced : String → Bool)
     (ignoredRevokes : List String) : List String :=
@@ -265,8 +270,12 @@ def rpPreds (obs : Json) (objs : List (String × List (Nat × ClassO))) (synced 
   -- decoded manifests/CRLs of every CA whose server content is its object set
   let p0 := objs.flatMap fun (h, cls) =>
     if !(synced h) then [] else cls.flatMap fun (_, c) => c.sets.flatMap (rpSetPreds rp)
-  if !((jbool? (jget rp "quiescent")).getD false) || !(certsConsistent obs) then p0 else
-  let probs := (jarr (jget rp "problems")).filter fun p => jstr (jget p "kind") != "unlisted-subdir"
+  if !((jbool? (jget rp "quiescent")).getD false) then p0 else
+  let lagging := laggingCas obs
+  let underLagging (uri : String) : Bool :=
+    lagging.any fun h => (uri.splitOn s!"/repo/{h}/").length > 1
+  let probs := (jarr (jget rp "problems")).filter fun p =>
+    jstr (jget p "kind") != "unlisted-subdir" && !(underLagging (jstr (jget p "uri")))
   let (vr, asp, rk) := expectVrps obs objs
   let gotA := (jarr (jget rp "aspas")).map fun a => match jarr a with
     | [c, ps] => (⟨jnat c, (jarr ps).map jnat⟩ : AspaDefn)
@@ -286,10 +295,11 @@ def rpPreds (obs : Json) (objs : List (String × List (Nat × ClassO))) (synced 
     else if kind == "no-manifest" && ignoredRevokes.any (fun k => (uri.splitOn s!"/{k}.").length > 1)
     then "RpTreeValid/no-manifest-after-ignored-revocation"
     else s!"RpTreeValid/{kind}") ++
-  (if (jarr (jget rp "missing")).isEmpty then [] else ["RpTreeValid/missing"]) ++
+  (if ((jarr (jget rp "missing")).filter fun u => !(underLagging (jstr u))).isEmpty then [] else ["RpTreeValid/missing"]) ++
+  (if !lagging.isEmpty then [] else
   mustBeAccepted obs objs ++
   (if sortP (dedupP (rpVrps rp)) == sortP (dedupP vr) then [] else ["RpPayloadsExact"]) ++
   (if sortBy defLt (dd gotA) == sortBy defLt (dd asp) then [] else ["RpAspasExact"]) ++
-  (if sortBy kLt (dd gotK) == sortBy kLt (dd rk) then [] else ["RpRouterKeysExact"])
+  (if sortBy kLt (dd gotK) == sortBy kLt (dd rk) then [] else ["RpRouterKeysExact"]))
 
 end KM.Drv.SysObj
